@@ -86,6 +86,19 @@ func (e *Engine) verifyFuncFor(key string, budget int, prop string) (res *FuncRe
 		fr.cur = st
 		fr.typeFacts(p.Type(), v)
 		fr.loadFacts(p.Type(), v)
+		// model expressions for replay: length and leading bytes of byte-slice / string parameters
+		if sortOf(p.Type()) == "Slice" {
+			isBytes := isString(p.Type())
+			if st, ok := p.Type().Underlying().(*types.Slice); ok {
+				if bits, _, ok := intInfo(st.Elem()); ok && bits == 8 {
+					isBytes = true
+				}
+			}
+			if isBytes {
+				c.inputs = append(c.inputs, app("s-len", v))
+				c.sliceInputs = append(c.sliceInputs, v)
+			}
+		}
 		sv := sval{t: v, typ: p.Type(), sort: sortOf(p.Type())}
 		fr.params[p.Name()] = sv
 		fr.params[p.Name()+"0"] = sv
